@@ -783,6 +783,11 @@ func (g *Gen) queryProgram(n int) {
 		c, k := pick(g.r, g.colls), pick(g.r, g.keys)
 		g.oneOp(c, k)
 		g.rb(c, k)
+		if g.r.chance(12) {
+			// time passes but the expiry timer has not fired yet: documents past their expiry are still live documents
+			g.now += uint64(pick(g.r, []int{50, 500, 2000}))
+			g.emit(Line{Op: "now", Args: [][2]string{{"s", u(g.now)}}})
+		}
 		if g.r.chance(45) {
 			qc := pick(g.r, g.colls)
 			q := 1 + g.r.intn(6)
@@ -1080,28 +1085,51 @@ func (g *Gen) collsProgram(n int) {
 }
 
 // resumeProgram: one checkpointed feed in resume mode, stopped and restarted (live and dump runs) between batches of writes.
-func (g *Gen) resumeProgram(n int) {
+func (g *Gen) resumeProgram(n int, fc string) {
+	// fc: the collection the checkpointed feed follows ("c0" is the default collection; with "c1" the default collection is watched too:
+	// a feed's checkpoint document belongs to the collection the feed follows)
 	g.colls = []string{"c0"}
+	if fc != "c0" {
+		g.colls = []string{"c0", fc}
+	}
+	ckRb := func() {
+		for _, cc := range g.colls {
+			g.rb(cc, "cp:fr")
+		}
+	}
 	g.keys = []string{"k0", "k1", "k2"}
 	g.profile = "nometa"
 	running := false
 	start := func(dump bool) {
-		l := Line{Op: "feed", Pos: []string{"fr", "c0"}, Args: [][2]string{{"bf", "resume"}, {"prefix", "cp"}}}
+		l := Line{Op: "feed", Pos: []string{"fr", fc}, Args: [][2]string{{"bf", "resume"}, {"prefix", "cp"}}}
 		if dump {
 			l.add("dump", "1")
 		}
 		g.emit(l)
 		g.emit(Line{Op: "drain", Pos: []string{"fr"}})
 		running = !dump
-		g.rb("c0", "cp:fr")
+		ckRb()
 	}
 	for i := 0; i < n; i++ {
 		switch g.r.weighted([]int{70, 12, 10, 8}) {
 		case 0:
 			g.tick()
 			k := pick(g.r, g.keys)
-			g.oneOp("c0", k)
-			g.rb("c0", k)
+			wc := fc
+			if fc != "c0" && g.r.chance(25) {
+				wc = "c0"
+			}
+			purged := g.oneOp(wc, k)
+			for _, cc := range g.colls {
+				if purged {
+					// a purge is bucket-wide: read everything back
+					for _, kk := range g.obsKeys() {
+						g.rb(cc, kk)
+					}
+				} else {
+					g.rb(cc, k)
+				}
+			}
 			if running {
 				g.emit(Line{Op: "drain", Pos: []string{"fr"}})
 			}
@@ -1116,7 +1144,7 @@ func (g *Gen) resumeProgram(n int) {
 				g.tick()
 				g.emit(Line{Op: "stopfeed", Pos: []string{"fr"}})
 				running = false
-				g.rb("c0", "cp:fr")
+				ckRb()
 				g.stats["op:stopfeed"]++
 			}
 		case 3:
@@ -1130,14 +1158,18 @@ func (g *Gen) resumeProgram(n int) {
 	if running {
 		g.tick()
 		g.emit(Line{Op: "stopfeed", Pos: []string{"fr"}})
-		g.rb("c0", "cp:fr")
+		ckRb()
 	}
 	g.tick()
-	for _, k := range g.obsKeys() {
-		g.rb("c0", k)
+	for _, cc := range g.colls {
+		for _, k := range g.obsKeys() {
+			g.rb(cc, k)
+		}
 	}
 	start(true)
-	g.emit(Line{Op: "keys", Pos: []string{"c0"}})
+	for _, cc := range g.colls {
+		g.emit(Line{Op: "keys", Pos: []string{cc}})
+	}
 }
 
 // lifeProgram: feeds started through several handles; terminators, drops, handle closes, bucket deletion in random order.
@@ -1281,10 +1313,14 @@ func (g *Gen) program(n int) {
 		g.lifeProgram(n)
 		return
 	}
-	if g.profile == "resume" {
+	if g.profile == "resume" || g.profile == "resume2" {
+		fc := "c0"
+		if g.profile == "resume2" {
+			fc = "c1"
+		}
 		g.phys = 1 << 20
 		g.now = 1700000000
-		g.resumeProgram(n)
+		g.resumeProgram(n, fc)
 		return
 	}
 	if g.profile == "view" || g.profile == "viewmeta" {
